@@ -146,7 +146,8 @@ theorem C07_names_bucket (blocks : List Block) (r : Req) :
   intro e he l hl
   unfold bucketSeries at he
   unfold bucketLabelNames
-  obtain ⟨b, hb, heb⟩ := List.mem_flatMap.mp he
+  obtain ⟨b, hb0, heb⟩ := List.mem_flatMap.mp he
+  have hb := mem_selected blocks r b hb0
   rw [List.mem_flatMap]
   refine ⟨b, hb, ?_⟩
   unfold blockSeries at heb
@@ -175,7 +176,8 @@ theorem C07_values_bucket (blocks : List Block) (r : Req) (wf : ∀ b ∈ blocks
     ∀ e ∈ bucketSeries blocks r, ∀ l ∈ e.1, l.2 ∈ bucketLabelValues blocks r l.1 := by
   intro e he l hl
   unfold bucketSeries at he
-  obtain ⟨b, hb, heb⟩ := List.mem_flatMap.mp he
+  obtain ⟨b, hb0, heb⟩ := List.mem_flatMap.mp he
+  have hb := mem_selected blocks r b hb0
   have hbm : b ∈ blocks := (List.mem_filter.mp hb).1
   have wfb := wf b hbm
   unfold blockSeries at heb
